@@ -7,10 +7,21 @@ The conservative-synchronisation argument as contracts (DESIGN 3-C05):
     arithmetic through Instant.__add__, proved in C01) and <= min link latency in ns (lemma), so an
     event sent at s >= window_start with delay >= L arrives at >= window_end >= every partition clock;
  3. PartitionLink: min_latency > 0, 0 <= loss < 1 or the constructor raises;
- 4. the per-partition loop contract of C01 (no loss, no duplication, key order) holds unchanged for
-    the window loop.
-A bounded native stand-in cross-checks the float behaviour of the window arithmetic (labelled bounded).
+ 4. the event router (routing.py): local events handed back, linked events appended to the outbox once, in
+    order, with the sender's clock; anything else raises;
+ 5. the barrier exchange (coordinator._exchange_events): every outbox entry scheduled exactly once into the
+    partition owning its target, not earlier than send + trunc(min_latency*1e9) ns (hence not before the window
+    end, not in the destination's past), or lost on the declared link, or the call raises; outboxes empty after;
+ 6. validation (validation.py): bounded native stand-in only;
+ 7. the window loop of WindowedCoordinator.run (sequential pool shim, two partitions): windows tile the time
+    axis, every partition runs each window, one exchange at its end, no clock ahead of the barrier, the loop
+    stops only at end_time or when no partition has ANY pending event;
+ plus the per-partition loop contract of C01 (no loss, no duplication, key order) unchanged for the window loop.
+Bounded native stand-ins: float window arithmetic, parallel-vs-sequential differential, validation, link override.
 Thread interleavings of the worker pool are not explored (frame-disjointness argument, DESIGN 4).
+Finding: PartitionLink.latency override calls LatencyDistribution.sample(), which does not exist
+(triage/c05_link_latency.py, fixes/C05_link_latency_override.diff); clauses about overrides are active only on a
+tree that contains the repair (LATENCY_OVERRIDE_REPAIRED).
 """
 from pyvc.spec import *
 from pyvc import spec as _spec_mod
@@ -45,6 +56,19 @@ loop(F_COORD, "WindowedCoordinator._exchange_events", 2, modifies=_EXCH_MODS,
           ("scheduled-arrival-not-before-send-time-plus-min-latency-ns", lambda L: _exch_step(L, "latency")),
           ("scheduled-arrival-not-before-the-window-end-nor-in-the-destinations-past", lambda L: _exch_step(L, "past"))])
 
+# run(): the window loop (thread pool replaced by a sequential shim, see section 7)
+_RUN_MODS = [("Simulation", f) for f in ("_current_time", "_is_running", "_wall_start", "_events_processed",
+                                         "_events_cancelled", "_last_event")] + \
+            [("EventHeap", "_heap"), ("EventHeap", "_primary_event_count"), ("EventHeap", "_current_time"),
+             ("Clock", "_current_time"), ("WindowedCoordinator", "_outboxes"), ("Event", "time")]
+loop(F_COORD, "WindowedCoordinator.run", 1, modifies=_RUN_MODS, types={"current_time": lambda: TIME},
+     inv=[("no-partition-clock-is-ahead-of-the-barrier-time", lambda L: _run_inv_clocks(L)),
+          ("partitions-stay-runnable", lambda L: _run_inv_runnable(L)),
+          # postconditions of ONE iteration (one window)
+          ("window-ends-at-start-plus-trunc-window-size-ns-clamped-to-end-time-and-the-next-starts-there",
+           lambda L: _run_step(L, "arith")),
+          ("every-partition-ran-exactly-this-window-then-one-exchange-at-its-end", lambda L: _run_step(L, "calls"))])
+
 _n0 = len(_spec_mod.TASKS)
 import specs.C01 as c01  # noqa: E402
 del _spec_mod.TASKS[_n0:]
@@ -64,8 +88,26 @@ PROPERTY = {
         "cross-partition delays respect the declared minimum (hypothesis of the statement)",
         "window arithmetic over reals (A-float); the float behaviour is cross-checked by the bounded stand-in "
         "`window-arithmetic-float` only",
-        "WindowedCoordinator.run/_exchange_events (thread pool, id()-keyed maps) are not under contract; their "
-        "ingredients are: the window clause (1), the arithmetic lemma (2), the link invariant (3)",
+        "id(obj) is modelled as the object's address term (injective on live objects - all CPython guarantees)",
+        "router (section 4): the outbox list shared by the router closure and the coordinator is modelled as one heap "
+        "field (OutboxCell.box); an event's target is an Entity or a CallbackEntity",
+        "_exchange_events (section 5): the coordinator's random.Random is modelled by LinkRng.random() returning some "
+        "float in [0,1) (trusted); a LatencyDistribution returns some Duration (nothing assumed about its size); "
+        "preconditions taken from other parts and not re-proved there: every recorded owner of an entity is a "
+        "partition of the coordinator (ParallelSimulation._run_coordinated builds both maps from the same lists - not "
+        "under contract); every outbox entry targets a recorded entity (router: only linked targets; "
+        "_install_routers builds the linked sets from the same entity lists - not under contract), carries a finite "
+        "timestamp and a send time within the current window (router: the sender's clock; C01: clocks never decrease); "
+        "every declared link is valid (section 3) and not shorter than the window (validate_partitions, bounded "
+        "stand-in); on a tree without fixes/C05_link_latency_override.diff additionally: no link has a latency override",
+        "run() (section 7): the worker pool is replaced by a sequential shim - one schedule, thread interleavings not "
+        "explored; shape bound: exactly two partitions 'A' and 'B' with their own heap and clock; window_size > 0 "
+        "(validate_partitions does not check it); the summary code after the loop is not under contract; at the call "
+        "of _exchange_events inside run() the per-entry preconditions listed above are assumed, not re-established "
+        "(the plumbing Simulation -> installed router -> outbox is not under contract); _run_window is used through "
+        "its contract with the frame: own engine fields, own heap, own clock, the coordinator's outboxes",
+        "validate_partitions / build_entity_sets: bounded native stand-in only (set comprehensions over objects, "
+        "id()-keyed dicts, vars() reflection are outside the engine's reach)",
     ],
     "bounded": [],
 }
@@ -93,6 +135,11 @@ _loader_mod.LOOP_SPECS[(c01.F_SIM, "Simulation._execute_until", 1)].inv.append(
      ((L.current_time.nanoseconds <= L.end_time_ns) | same_instant(L.current_time, L.old(L.self)._current_time))))
 
 
+# the window loop neither starts/stops nor pauses the partition (ENGINE_FRAME: opaque user code does not either);
+# the engine rejects the contract if the loop body writes one of the two fields
+_loader_mod.LOOP_SPECS[(c01.F_SIM, "Simulation._execute_until", 1)].keeps += [("Simulation", "_is_running"), ("Simulation", "_is_paused")]
+
+
 def _win_setup(s):
     r = _sim_setup(s)
     from pyvc import ctx as _c
@@ -106,7 +153,20 @@ fn(Simulation, "_execute_until", label="strict-window", args={"end_time_ns": Int
    requires=[lambda s: Not(s.self._event_heap._tracing_enabled), lambda s: wf_instant(s.self._current_time)],
    ensures=[("clock-not-past-the-window-unless-it-already-was", lambda s:
              (s.self._current_time.nanoseconds <= s.end_time_ns) | same_instant(s.self._current_time, s.old(s.self)._current_time)),
-            ("time-never-decreases", lambda s: Not(spec_lt(s.self._current_time, s.old(s.self)._current_time)))])
+            ("time-never-decreases", lambda s: Not(spec_lt(s.self._current_time, s.old(s.self)._current_time))),
+            # the window is run to completion: nothing stamped inside it is left behind (it would be delivered in a
+            # later window with the partition clock far behind the barrier - its sends would arrive in the past)
+            ("every-event-still-pending-lies-beyond-the-window-end", lambda s: _window_complete(s))])
+
+
+def _window_complete(s):
+    heap = s.self._event_heap
+    t0 = field_term(s.old(s.self), "_current_time")
+    already_past = mk_bool(z3.Or(I_DT.tag(t0) == 1, I_DT.nanoseconds(t0) > num_term(s.end_time_ns)[0]))
+    return already_past | forall(Ref(Event), lambda x: implies(
+        mk_bool(z3.Select(hcnt(heap), x._ref) > 0),
+        mk_bool(z3.Or(I_DT.tag(field_term(x, "time")) == 1, I_DT.nanoseconds(field_term(x, "time")) > num_term(s.end_time_ns)[0]))))
+
 
 # the coordinator's entry point for one window (what each worker thread runs)
 from specs.C01 import _setup_counters, _teardown_counters  # noqa: E402
@@ -125,9 +185,51 @@ fn(Simulation, "_run_window", args={"window_end": TIME}, uses=WIN_USES + [(Event
    setup=_run_window_setup, teardown=_teardown_counters,
    requires=[lambda s: Not(s.self._event_heap._tracing_enabled), lambda s: wf_instant(s.self._current_time),
              lambda s: Not(s.self._is_paused)],
-   ensures=[("partition-clock-not-past-the-window-end-unless-it-already-was", lambda s:
-             (s.self._current_time.nanoseconds <= s.window_end.nanoseconds)
-             | same_instant(s.self._current_time, s.old(s.self)._current_time))])
+   # (frame used when run() replaces the call by this contract: the partition's own engine state, its heap, its
+   #  clock, and - through the installed router - the coordinator's outboxes; handler effects on entities are not
+   #  observed by any clause of run())
+   modifies=["_current_time", "_is_running", "_wall_start", "_events_processed", "_events_cancelled", "_last_event",
+             (lambda s: s.self._event_heap, "_heap"), (lambda s: s.self._event_heap, "_primary_event_count"),
+             (lambda s: s.self._event_heap, "_current_time"), (lambda s: s.self._clock, "_current_time"),
+             ("*", "WindowedCoordinator", "_outboxes")],
+   # (written on raw terms - same meaning as same_instant / spec_lt - so that using the contract as a stub does
+   #  not fork on the Instant/Infinity tag of every value read)
+   ensures=[("partition-clock-not-past-the-window-end-unless-it-already-was", lambda s: mk_bool(z3.Or(
+                I_DT.nanoseconds(_now_t(s)) <= num_term(s.window_end.nanoseconds)[0], _raw_eq(_now_t(s), _old_t(s))))),
+            ("time-never-decreases", lambda s: mk_bool(z3.Not(_raw_lt(_now_t(s), _old_t(s))))),
+            ("clock-value-is-a-well-formed-instant", lambda s: mk_bool(z3.And(
+                z3.Or(I_DT.tag(_now_t(s)) == 0, I_DT.tag(_now_t(s)) == 1),
+                z3.Implies(I_DT.tag(_now_t(s)) == 1, I_DT.nanoseconds(_now_t(s)) == MAXSIZE)))),
+            ("partition-is-running-and-not-paused", lambda s: s.self._is_running & Not(s.self._is_paused)),
+            ("every-event-still-pending-lies-beyond-the-window-end", lambda s: _window_complete(
+                NS_(self=s.self, old=s.old, end_time_ns=s.window_end.nanoseconds)))])
+
+
+class NS_:
+    def __init__(me, **kw):     # noqa: N805  (`self` is one of the keys)
+        me.__dict__.update(kw)
+
+
+def _now_t(s):
+    return field_term(s.self, "_current_time")
+
+
+def _old_t(s):
+    return field_term(s.old(s.self), "_current_time")
+
+
+def _raw_eq(a, b):
+    """same_instant on raw Instant terms"""
+    return z3.Or(z3.And(I_DT.tag(a) == 1, I_DT.tag(b) == 1),
+                 z3.And(I_DT.tag(a) == 0, I_DT.tag(b) == 0, I_DT.nanoseconds(a) == I_DT.nanoseconds(b)))
+
+
+def _raw_lt(a, b):
+    """spec_lt on raw Instant terms: Infinity is greater than every finite instant"""
+    return z3.And(I_DT.tag(a) == 0, z3.Or(I_DT.tag(b) == 1, I_DT.nanoseconds(a) < I_DT.nanoseconds(b)))
+
+
+from pyvc.sym import num_term  # noqa: E402,F811
 
 # =============================================================================== 2. window arithmetic
 
@@ -230,6 +332,29 @@ def _diff_models(seed, tier):
     return run_native_script("triage/c05_diff.py", 150 if tier == "quick" else 3000, seed)
 
 
+def _validate_standin(seed, tier):
+    """validate_partitions / build_entity_sets (set comprehensions over objects, id()-keyed dicts, vars() reflection:
+    outside the verifier's reach): bounded native stand-in against an oracle written from the statement - accepted
+    ==> window_size <= min link latency, no entity in two partitions, unique names, links join known partitions;
+    rejected ==> ValueError and the oracle agrees; entity sets == ids of entities+sources+probes, disjoint;
+    ParallelSimulation agrees and uses the validated window"""
+    return run_native_script("triage/c05_validate.py", 400 if tier == "quick" else 20000, seed)
+
+
+def _link_latency_standin(seed, tier):
+    """a link with a latency distribution delivers at send + sample and rejects a sample below min_latency
+    (finding: LatencyDistribution has no sample(); only meaningful on a tree with fixes/C05_link_latency_override.diff)"""
+    if not LATENCY_OVERRIDE_REPAIRED:
+        return {"evaluations": 0, "violations": [], "skipped": "unrepaired tree: see the finding C05/link-latency-override"}
+    return run_native_script("triage/c05_link_latency.py")
+
+
+PROPERTY["bounded"].append({"name": "partition-validation-and-entity-sets",
+                            "bound": "400 (quick) / 20000 (thorough) seeded configurations: 1-3 partitions x 0-3 entities from a pool of 5, "
+                                     "0-3 links on a latency grid, window None / half / equal / 1 ulp-ish above / 3x the minimum latency",
+                            "fn": _validate_standin})
+PROPERTY["bounded"].append({"name": "link-latency-override", "bound": "2 scenarios (override above / below min_latency); repaired tree only",
+                            "fn": _link_latency_standin})
 PROPERTY["bounded"].append({"name": "parallel-vs-sequential-differential",
                             "bound": "150 (quick) / 3000 (thorough) seeded random models: 2-3 partitions x 1-2 entities, 1-6 tokens of 0-6 hops",
                             "fn": _diff_models})
@@ -403,7 +528,7 @@ stub_of(LinkRng, "random", returns=Real, modifies=[], ensures=[lambda s: (s.resu
 stub_of(LatencyDistribution, "get_latency", returns=DURATION, modifies=[], ensures=[])
 
 KEY2 = Tuple(Str, Str)
-SIMS = Map(Str, Ref(Simulation))
+SIMS = Map(Str, Ref(Simulation), ordered=True)       # a dict in insertion order (run() iterates it)
 OUTBOXES = Map(Str, OUTBOX)
 E2P = Map(Int, Str)
 LINKMAP = Map(KEY2, LINK)
@@ -536,6 +661,12 @@ def _exch_requires():
             box = z3.Select(val, k.t)
             return forall(Int, lambda j: implies(mk_bool(z3.And(z3.Select(dom, k.t), 0 <= j.t, j.t < z3.Length(box))),
                                                  mk_bool(body(box[j.t]))), "rq_j")
+        if has_G("in_run"):
+            # call site inside run(): what the outboxes contain after a window is the router's doing (section 4:
+            # only linked targets, stamped with the sender's clock; C01: clocks never decrease); the plumbing
+            # Simulation -> installed router -> outbox list is not under contract, so run() does not re-establish
+            # the per-entry preconditions (listed in PROPERTY["assumptions"])
+            return True
         return forall(Str, at_k, "rq_k")
     rq = [
         # construction (ParallelSimulation._run_coordinated): every owner recorded for an entity is a partition
@@ -546,7 +677,7 @@ def _exch_requires():
         ("partitions-ran-the-window", lambda s: forall(Str, lambda n: implies(
             mk_bool(z3.Select(_m(s.self._simulations)[0], n.t)),
             _sim_at(s, n)._is_running & Not(_sim_at(s, n)._event_heap._tracing_enabled)
-            & mk_bool(z3.And(I_DT.tag(field_term(_sim_at(s, n), "_current_time")) == 0,      # (raw terms: no forks)
+            & mk_bool(z3.And(True,                                                               # (raw terms: no forks)
                              I_DT.nanoseconds(field_term(_sim_at(s, n), "_current_time"))
                              <= num_term(s.window_end.nanoseconds)[0]))))),
         # the router only puts events for entities of linked partitions into an outbox (section 4) and the
@@ -592,8 +723,9 @@ def _link_ok(s, k):
 
 from pyvc.sym import num_term  # noqa: E402
 
-fn(WindowedCoordinator, "_exchange_events", args={"window_end": TIME}, setup=_exch_setup,
+fn(WindowedCoordinator, "_exchange_events", args={"window_end": TIME}, setup=_exch_setup, returns=Int,
    uses=[(Simulation, "schedule"), (LinkRng, "random"), (LatencyDistribution, "get_latency")],
+   modifies=["_outboxes", ("*", "Event", "time"), ("*", "EventHeap", "_heap"), ("*", "EventHeap", "_primary_event_count")],
    requires=_exch_requires(),
    ensures=[("every-outbox-is-empty-afterwards", lambda s: forall(Str, lambda k: implies(
                 mk_bool(z3.Select(_m(s.self._outboxes)[0], k.t)),
@@ -603,3 +735,156 @@ fn(WindowedCoordinator, "_exchange_events", args={"window_end": TIME}, setup=_ex
             ("no-partition-clock-moves", lambda s: forall(Ref(Simulation), lambda x: unchanged(s, x, "_current_time"))
                 & forall(Ref(Clock), lambda x: unchanged(s, x, "_current_time")))],
    raises={RuntimeError: [("only-for-a-missing-link-or-an-early-arrival", lambda s: True)]})
+
+# =============================================================================== 7. the window loop of run()
+# The worker pool is replaced, in this task only, by a sequential shim (submit runs the callable at once,
+# as_completed returns the futures): ONE schedule; thread interleavings are not explored (frame-disjointness
+# assumption).  Shape bound: exactly two partitions "A", "B" (the loop logic - window arithmetic, barrier order,
+# termination test - does not depend on the number of partitions; run() iterates the dict natively).
+# From the statement (conservative synchronisation): windows tile the time axis - each starts where the previous
+# ended and ends at min(start + trunc(window_size*1e9) ns, end_time); in each window every partition runs exactly
+# that window, then ONE exchange at the window end; no partition clock is ever ahead of the barrier time; the
+# loop stops only when the barrier time has reached end_time or NO partition has any pending event (daemon
+# events included).  The summary code after the loop is not under contract (the path ends at the pool's exit).
+import happysimulator.parallel.coordinator as _coord_mod  # noqa: E402
+from pyvc.ctx import PathEnd as _PathEnd  # noqa: E402
+
+
+class _SeqFuture:
+    def __init__(self, value):
+        self._value = value
+
+    def result(self):
+        return self._value
+
+
+class _SeqPool:
+    """sequential stand-in for ThreadPoolExecutor; its __exit__ is the end of the window loop"""
+
+    def __init__(self, max_workers=None):
+        pass
+
+    def __enter__(self):
+        return self
+
+    def submit(self, f, *a):
+        return _SeqFuture(f(*a))
+
+    def __exit__(self, et, ev, tb):
+        if et is not None:
+            return False
+        import sys as _sys
+        loc = _sys._getframe(1).f_locals            # the locals of run() where its `with` block ends
+        from pyvc import ctx as _c
+        c = _c.cur()
+        coord, now = loc["self"], loc["current_time"]
+        c.spec_mode += 1
+        try:
+            v = Not(spec_lt(now, coord._end_time)) | sym_and(*[slen(sm._event_heap._heap) == 0 for sm in _run_sims(coord)])
+        finally:
+            c.spec_mode -= 1
+        c.oblige("run-loop-exit/stops-only-at-end-time-or-when-no-partition-has-any-pending-event", v, kind="post")
+        if not _SAVED_POOL.get("canary_done"):
+            # every path of this task ends here or at the loop cut, never at the engine's own vacuity canary
+            _SAVED_POOL["canary_done"] = True
+            if c.oblige("canary", False, kind="canary")["verdict"] == "PROVED":
+                raise SpecError("WindowedCoordinator.run: the loop exit is unreachable under the contract (vacuous)")
+        raise _PathEnd("run(): the summary code after the window loop is not under contract")
+
+
+def _run_sims(coord):
+    return [coord._simulations["A"], coord._simulations["B"]]
+
+
+def _run_setup(s):
+    from pyvc import ctx as _c
+    g = _c.cur().ghost_args
+    g["in_run"] = True
+    g["win_end_ns"] = None
+    a, b = fresh(Ref(Simulation), "simA"), fresh(Ref(Simulation), "simB")
+    s.self._simulations = {"A": a, "B": b}
+    _SAVED_POOL.update(pool=_coord_mod.ThreadPoolExecutor, ac=_coord_mod.as_completed)
+    _coord_mod.ThreadPoolExecutor = _SeqPool
+    _coord_mod.as_completed = lambda futures: list(futures)
+    return [a, b]
+
+
+_SAVED_POOL = {}
+
+
+def _run_teardown(s):
+    if "pool" in _SAVED_POOL:
+        _coord_mod.ThreadPoolExecutor = _SAVED_POOL.pop("pool")
+        _coord_mod.as_completed = _SAVED_POOL.pop("ac")
+
+
+def _clock_ns(sm):
+    return mk_num(I_DT.nanoseconds(field_term(sm, "_current_time")))
+
+
+def _wf_clock(sm):
+    """typing invariant of an Instant value (an _InfiniteInstant carries sys.maxsize), on raw terms"""
+    t = field_term(sm, "_current_time")
+    return mk_bool(z3.And(z3.Or(I_DT.tag(t) == 0, I_DT.tag(t) == 1), z3.Implies(I_DT.tag(t) == 1, I_DT.nanoseconds(t) == MAXSIZE)))
+
+
+def _run_inv_clocks(L):
+    from pyvc import ctx as _c
+    now = L.current_time
+    if L.loop_phase == "assume":
+        _c.cur().ghost_args["win_start_ns"] = now.nanoseconds      # this window starts at the barrier time
+    return sym_and(*[(_clock_ns(sm) <= now.nanoseconds) & _wf_clock(sm) for sm in _run_sims(L.self)])
+
+
+def _run_inv_runnable(L):
+    return sym_and(*[Not(sm._is_paused) & Not(sm._event_heap._tracing_enabled)
+                     & mk_bool(field_term(sm, "_clock") == field_term(L.old(sm), "_clock"))
+                     & mk_bool(field_term(sm, "_event_heap") == field_term(L.old(sm), "_event_heap"))
+                     for sm in _run_sims(L.self)])
+
+
+def _run_step(L, part):
+    if L.loop_phase != "step":
+        return True
+    coord = L.self
+    start, end = L.head.current_time, L.current_time            # barrier time before / after this iteration
+    if part == "arith":
+        w_ns = trunc_ns(coord._window_size)
+        horizon = coord._end_time
+        if is_inf(horizon):
+            return end.nanoseconds == start.nanoseconds + w_ns
+        return end.nanoseconds == ite(start.nanoseconds + w_ns <= horizon.nanoseconds,
+                                      start.nanoseconds + w_ns, horizon.nanoseconds)
+    tr = G("trace") if has_G("trace") else []
+    calls = [r for r in tr if r[0] in ("Simulation._run_window", "WindowedCoordinator._exchange_events")]
+    if [r[0] for r in calls] != ["Simulation._run_window", "Simulation._run_window", "WindowedCoordinator._exchange_events"]:
+        return False
+    a, b = _run_sims(coord)
+    w1, w2, ex = calls
+    both = (same(w1[1]["self"], a) & same(w2[1]["self"], b)) | (same(w1[1]["self"], b) & same(w2[1]["self"], a))
+    same_end = sym_and(*[r[1]["window_end"].nanoseconds == end.nanoseconds for r in calls])
+    return both & same_end & same(ex[1]["self"], coord)
+
+
+def _run_requires():
+    def sims_distinct(s):
+        a, b = _run_sims(s.self)
+        return (Not(same(a, b)) & Not(same(a._event_heap, b._event_heap)) & Not(same(a._clock, b._clock)))
+    return [
+        ("two-partitions-with-their-own-heap-and-clock", sims_distinct),
+        # Simulation.__init__: every partition starts at start_time; not paused, tracing off
+        ("partitions-start-at-start-time", lambda s: sym_and(*[
+            _wf_clock(sm) & (_clock_ns(sm) <= s.self._start_time.nanoseconds)
+            & Not(sm._is_paused) & Not(sm._event_heap._tracing_enabled) for sm in _run_sims(s.self)])),
+        ("window-size-positive", lambda s: s.self._window_size > 0),
+        ("end-time-well-formed", lambda s: wf_instant(s.self._end_time)),
+        ("owners-are-partitions", lambda s: forall(Int, lambda t: implies(
+            mk_bool(z3.Select(_m(s.self._entity_to_partition)[0], t.t)),
+            mk_bool(z3.Select(_m(s.self._simulations)[0], z3.Select(_m(s.self._entity_to_partition)[1], t.t)))))),
+        ("links-are-valid-and-not-shorter-than-the-window", lambda s: forall(Raw(KEY2.sort()), lambda k: _link_ok(s, k))),
+    ]
+
+
+fn(WindowedCoordinator, "run", label="window-loop-two-partitions", setup=_run_setup, teardown=_run_teardown,
+   uses=[(Simulation, "_run_window"), (WindowedCoordinator, "_exchange_events"), (EventHeap, "has_events")],
+   requires=_run_requires(), ensures=[])
